@@ -330,12 +330,12 @@ def stream_exhaustive(tier):
 
 
 def stream_random(tier, rng):
-    N = 360 if tier == "quick" else 9000
+    N = 480 if tier == "quick" else 12000
     fams = C.Labels.FAMILIES
     gs = []
     for i in range(N):
         n = rng.choice((4, 5, 5, 5, 6, 6))
-        mode = ("pd", "circ", "disc", "disc2", "unif", "pd", "disc2", "pd")[i % 8]
+        mode = ("pd", "circ", "disc", "disc2", "unif", "pd", "disc2", "disc2")[i % 8]
         g = rand_pag(rng, n, mode)
         if i % 3 == 0:
             g = C.shuffled_graph(rng, g)
@@ -343,7 +343,12 @@ def stream_random(tier, rng):
         pairs = list(itertools.permutations(range(n), 2))
         trip = list(itertools.permutations(range(n), 3))
         if mode in ("disc", "disc2"):
-            qs = disc_queries(n, trip) + updp_queries(n, rng.sample(pairs, 6), rng, 6)
+            # triples that pass the entry tests (a -> c or a o-> c present, a adjacent to u) plus a sample of the others
+            D = set(map(tuple, g["D"]))
+            adjs = set((x, y) for k in C.LAYERS for x, y in g.get(k, [])) | set((y, x) for k in C.LAYERS for x, y in g.get(k, []))
+            live = [t for t in trip if (t[1], t[2]) in D and (t[0], t[1]) in adjs]
+            dead = [t for t in trip if t not in set(live)]
+            qs = disc_queries(n, live + rng.sample(dead, min(len(dead), 12))) + updp_queries(n, rng.sample(pairs, 4), rng, 6)
         else:
             qs = updp_queries(n, pairs, rng, 10) + disc_queries(n, rng.sample(trip, min(len(trip), 30)))
         gs.append((g, fam, qs))
